@@ -55,6 +55,19 @@ start line, header block, length or number is ever chosen by the checker; branch
   `x[a:][b:] == x[a + b:]` for a, b >= 0 (an `occ` index is never negative).  A slice bound that is an unordered merge
   (no tracked condition) is `opaque` -> the comparison is undecided, not violated; a bound that is a plain `find`
   without fallback, a wrong offset or the `rfind` variant is an exact term different from the demanded one -> violated.
+  The whole sequence `x.split(s, 1)` selected against a pair by an occurrence test is read element-wise the same way
+  (`x.split(s, 1) if s in x else (x, b"")` is `(partition[0], partition[2])`).
+  *Octet filter* (3, 4): `bytes(o for o in x if c(o))` (list / generator form, `bytes(filter(None, x))`) is the term
+  ("octets", x, c) = "the octets of x for which c holds, in order" (iterating bytes yields its octets, bytes() of ints puts
+  them back).  `_octet_verdict` decides c in the **interval domain** with the element `$` ranging over the ASCII octets
+  [0, 127] resp. the visible ones [0x21, 0x7E]: comparisons of `$` / `$ & mask` with constants, `$ in range(a, b)`,
+  `not`/`and`/`or`, int truthiness.  Transfer rules: two intervals compare definitely when they do not overlap;
+  0 <= x & m <= min(x, m) for x, m >= 0; x & m == 0 when m has none of the low seven bits and x <= 127 (known bits); the
+  interval of `$` itself is exact, so `$ < k` not holding on all of it means some octet of the range fails.  No octet
+  value is enumerated.  c true on [0, 127] -> `_strip_codec` peels the filter like the `errors="ignore"` ASCII round
+  trip (lemma: every start-line token of a message in the quantifier is ASCII, so the filter returns an equal value);
+  c false for some visible ASCII octet -> exact term that is not the token (violated where a token is demanded);
+  otherwise (only controls / the space dropped, or c outside the lemmas) `opaque` -> undecided.
 * R1 (body / first_line): 3 - structural equality of the field's term with the demanded term
   `<arg>.partition(CRLFCRLF)[2]` resp. `ws-split(<arg>.partition(CRLFCRLF)[0].partition(CRLF)[0])`; 1 to locate the
   constructions.  Lemma: `x.rstrip()/.strip()/.lstrip()` before an argument-less `.split()` does not change the tokens
@@ -63,14 +76,20 @@ start line, header block, length or number is ever chosen by the checker; branch
   dominating `len(T) <op> k` facts, T identified by term equality - 3), 1 (try/except shape for the EAFP form).
   Lemma: unpacking a sequence into n plain targets succeeds iff its length is n, and otherwise raises ValueError; access
   to constant index i needs `len > i` (i >= 0) resp. `len >= -i` (i < 0); a split at an explicit separator has at least
-  one piece (only the whitespace split can be empty); the test of a conditional expression holds in its first arm and
-  fails in its second.
+  one piece (only the whitespace split can be empty); `x.split(s, k)` / `x.rsplit(s, k)` with a constant k >= 0 has at most
+  k + 1 pieces; under a dominating occurrence test (find/partition lemma: `s in x`, `x.find(s) >= 0`, ..) for the same x
+  and s a split that may cut at least once has at least two pieces, and under its negation exactly one; the test of a
+  conditional expression holds in its first arm and fails in its second.  EAFP: for the start-line tokens the ValueError
+  handler around the unpacking must end in the parser's ValueError (a malformed start line is *rejected*); for the
+  pieces of any other split it only has to exist (the failed unpacking does not escape; the values the handler
+  computes instead are judged by R1/R5 on the terms).
 * R3 (start-line fields, params, headers binding): 3 - structural comparison of field terms ("item i of one and the same
   token-sequence term", "path component / query component of one and the same request target", "map over `parse_qsl`
   pairs"); 1.  The components are recognised as `.path` / `.query` (or the equivalent tuple elements 2 and 4 resp. 3) of
   `urlparse(..)` / `urlsplit(..)` (both result types have these attributes), urlparse's path re-joined with its params,
   or the two outer components of the target's partition at the first `?`.
-  `.encode/.decode/str(x, enc)/bytes(x, enc)` steps are peeled structurally ("re-coded only"), never executed.
+  `.encode/.decode/str(x, enc)/bytes(x, enc)` steps are peeled structurally ("re-coded only"), never executed; an octet
+  filter that keeps every ASCII octet (interval domain, see `_Sym`) is peeled the same way (4).
 * R4 (selection of the message kind, exits): 2 (dominating conditions with polarity, enclosing conditional expressions;
   return statements / fall-off-end from the CFG), 3 (terms of the conditions), 6 (folding of the *reference* constant
   `b"HTTP/"` under `upper`/`lower` to compare it with the literal in the code).  Lemma: `l.upper().startswith(K.upper())`,
@@ -137,6 +156,7 @@ def _c(node):
 # ("binop", op, l, r) ("opaque", why) ("occ", "find"|"rfind", x, sep): index of the first/last occurrence of sep in x, len(x) if none
 # ("filter", it, cond): the elements of `it` for which `cond` (over the element marker) holds
 # ("attr", "path;params", P): urlparse result P's path with its `;params` put back
+# ("octets", x, cond): the bytes value made of the octets of `x` for which `cond` (over the element marker) holds, in order
 def _opaque(why):
     return ("opaque", why)
 
@@ -325,6 +345,9 @@ def _occ_merge(x, sep, p, a):
     one of the forms below.  In the branch where the separator occurs `x.find(sep)` / `x.index(sep)` are the first and
     `x.rfind(sep)` / `x.rindex(sep)` the last occurrence, i.e. the value of the corresponding ("occ", ..) term; in the other
     branch that term is len(x), the first partition component is x itself and the third is empty."""
+    if _split_once(p) == (x, sep):
+        # where the separator occurs, x.split(sep, 1) is the two-element sequence [before, after] the first occurrence
+        p = ("tuple", ("part", "partition", x, sep, 0), ("part", "partition", x, sep, 2))
     if p[0] == "tuple" and a[0] == "tuple" and len(p) == len(a):
         parts = [_occ_merge(x, sep, pi, ai) for pi, ai in zip(p[1:], a[1:])]
         return None if any(q is None for q in parts) else ("tuple",) + tuple(parts)
@@ -410,7 +433,7 @@ def _subst(t, repl):
         return _mk_slice(_subst(t[1], repl), *t[2:])
     if t and t[0] == "slice" and len(t) == 5 and all(isinstance(x, tuple) for x in t[2:]):
         return _mk_slice_terms(*[_subst(x, repl) for x in t[1:]])
-    if t and t[0] in ("gen", "map", "filter"):
+    if t and t[0] in ("gen", "map", "filter", "octets"):
         # the element marker inside the element expressions belongs to that inner comprehension
         return (t[0], _subst(t[1], repl)) + t[2:]
     return tuple(_subst(x, repl) for x in t)
@@ -442,13 +465,101 @@ def _mk_map(it, key, val, init=()):
     return ("map", it, key, val, init)
 
 
+def _unfilter_terms(it):
+    """(base iterable, [condition terms of the filters around it, outermost first])."""
+    conds = []
+    while it[0] == "filter":
+        conds.append(it[2])
+        it = it[1]
+    return it, conds
+
+
+_ASCII = (0, 127)
+_VISIBLE = (0x21, 0x7E)   # the ASCII octets that are neither controls nor the space: each of them may occur in a start-line token
+_FLIP = {"==": "!=", "!=": "==", "<": ">=", "<=": ">", ">": "<=", ">=": "<"}
+
+
+def _octet_interval(t, rng=_ASCII):
+    """Interval of an int expression over the element marker `$` when `$` is an octet in `rng` (a sub-range of the ASCII
+    octets 0..127; interval domain; the interval of `$` itself is exact: every value in it is such an octet); None if the
+    expression is not modelled.  Transfer rule for the mask: for 0 <= x and m >= 0, 0 <= x & m <= min(x, m); when m has
+    none of the low seven bits set, x & m == 0 for every x <= 127 (known bits)."""
+    if t == ELEM:
+        return rng
+    if t[0] == "const" and type(t[1]) is int:
+        return t[1], t[1]
+    if t[0] == "binop" and t[1] == "BitAnd":
+        for a, b in ((t[2], t[3]), (t[3], t[2])):
+            ia = _octet_interval(a, rng)
+            if ia is not None and ia[0] >= 0 and b[0] == "const" and type(b[1]) is int and b[1] >= 0:
+                return (0, 0) if b[1] & 127 == 0 and ia[1] <= 127 else (0, min(ia[1], b[1]))
+    return None
+
+
+def _octet_verdict(c, rng=_ASCII):
+    """Does the condition `c` over the element marker hold for the octets in `rng`?  "T": for every one; "F": for none;
+    "N": not for every one (some octet of the range fails it); None: not decided by the lemmas.
+    Interval reasoning only (no octet is enumerated): a comparison of two intervals is decided when they do not overlap
+    (resp. are the same point); when `$` itself is compared with a constant the interval of `$` is exact, so "not true
+    for the whole interval" means that an octet of the range fails the test."""
+    if c[0] == "const" and isinstance(c[1], bool):
+        return "T" if c[1] else "F"
+    iv = _octet_interval(c, rng)
+    if iv is not None:
+        # the truth value of an int: 0 is false, every other value true (an octet: NUL is false)
+        return "F" if iv == (0, 0) else "T" if iv[0] > 0 or iv[1] < 0 else "N" if c == ELEM else None
+    if c[0] == "not":
+        v = _octet_verdict(c[1], rng)
+        return {"T": "F", "F": "T"}.get(v)
+    if c[0] in ("and", "or"):
+        vs = [_octet_verdict(x, rng) for x in c[1]]
+        strong, weak = ("F", "T") if c[0] == "and" else ("T", "F")
+        if strong in vs:
+            return strong
+        if all(v == weak for v in vs):
+            return weak
+        if None in vs:
+            return None
+        return "N" if c[0] == "and" else None    # a conjunct that fails for some octet makes the conjunction fail for it
+    if c[0] == "cmp" and c[1] in ("in", "not in") and c[2] == ELEM and c[3][0] == "call" and c[3][1] == "range" and not c[3][3] \
+            and len(c[3][2]) in (1, 2) and all(a[0] == "const" and type(a[1]) is int for a in c[3][2]):
+        # `$ in range(a, b)` is a <= $ < b
+        lo, hi = (0, c[3][2][0][1]) if len(c[3][2]) == 1 else (c[3][2][0][1], c[3][2][1][1])
+        v = _octet_verdict(("and", (("cmp", ">=", ELEM, ("const", lo)), ("cmp", "<", ELEM, ("const", hi)))), rng)
+        return v if c[1] == "in" else {"T": "F", "F": "T"}.get(v)
+    if c[0] == "cmp" and c[1] in _MIRROR:
+        op, l, r = c[1], c[2], c[3]
+        il, ir = _octet_interval(l, rng), _octet_interval(r, rng)
+        if il is None or ir is None:
+            return None
+        exact = (l == ELEM and ir[0] == ir[1]) or (r == ELEM and il[0] == il[1]) or (il[0] == il[1] and ir[0] == ir[1])
+        if op in (">", ">="):
+            op, il, ir = _MIRROR[op], ir, il
+        if op == "<":
+            t, f = il[1] < ir[0], il[0] >= ir[1]
+        elif op == "<=":
+            t, f = il[1] <= ir[0], il[0] > ir[1]
+        else:
+            same = il[0] == il[1] == ir[0] == ir[1]
+            apart = il[1] < ir[0] or ir[1] < il[0]
+            t, f = (same, apart) if op == "==" else (apart, same)
+        return "T" if t else "F" if f else "N" if exact else None
+    return None
+
+
 def _strip_codec(t):
-    """(inner term, [codec steps outermost first]) - peel `.encode(..)`/`.decode(..)`/`str(x, enc)`/`bytes(x, enc)`."""
+    """(inner term, [codec steps outermost first]) - peel `.encode(..)`/`.decode(..)`/`str(x, enc)`/`bytes(x, enc)`, and an
+    octet filter ("octets", x, c) whose condition holds for every ASCII octet (the start-line tokens of a message in the
+    quantifier - method, ASCII path, percent-encoded query, version, status digits, reason - are ASCII, so such a filter
+    returns an equal value, exactly like the `errors="ignore"` ASCII round trip it may replace)."""
     steps = []
     while True:
         if t[0] == "meth" and t[1] in ("encode", "decode"):
             steps.append((t[1], t[3], t[4]))
             t = t[2]
+        elif t[0] == "octets" and _octet_verdict(t[2]) == "T":
+            steps.append(("octets", (t[2],), ()))
+            t = t[1]
         elif t[0] == "call" and t[1] in ("str", "bytes") and len(t[2]) >= 2:
             steps.append(("decode" if t[1] == "str" else "encode", t[2][1:], t[3]))
             t = t[2][0]
@@ -497,6 +608,8 @@ def _show(t, depth=0):
         return f"{{{s(t[2])}: {s(t[3])} for $ in {s(t[1])}}}" + (f" over initial {dict(t[4])!r}" if t[4] else "")
     if h == "filter":
         return f"<$ in {s(t[1])} if {s(t[2])}>"
+    if h == "octets":
+        return f"bytes(<octets $ of {s(t[1])} if {s(t[2])}>)"
     if h == "dict":
         return "{" + ", ".join(f"{s(k)}: {s(v)}" for k, v in t[1]) + "}"
     if h == "elem":
@@ -661,6 +774,19 @@ class _Sym:
             return ("const", len(args[0][1]))   # constant folding
         if name == "bytes" and len(args) == 1 and not kwargs and args[0][0] == "part":
             return args[0]   # bytes(<bytes>) is a copy of the same value
+        if name == "bytes" and len(args) == 1 and not kwargs and args[0][0] in ("gen", "filter"):
+            # bytes(o for o in X if c(o)) / bytes(filter(None, X)): iterating a bytes value yields its octets (ints 0..255)
+            # and bytes() of an iterable of ints puts them back in order -> "the octets of X for which c holds"
+            g = args[0] if args[0][0] == "gen" else ("gen", args[0], ELEM)
+            if g[2] == ELEM:
+                x, conds = _unfilter_terms(g[1])
+                cond = ("const", True) if not conds else conds[0] if len(conds) == 1 else ("and", tuple(conds))
+                # kept for every ASCII octet -> an exact term that `_strip_codec` peels; drops a visible ASCII character -> an
+                # exact term that is not the value itself; anything else (only controls / the space dropped - whether they
+                # can occur in a token is not judged -, or a condition outside the interval lemmas) is not modelled
+                if _octet_verdict(cond) == "T" or _octet_verdict(cond, _VISIBLE) in ("F", "N"):
+                    return ("octets", x, cond)
+                return _opaque("octet filter that the interval lemmas neither show to keep every ASCII octet nor to drop a visible ASCII character")
         if name in ("list", "tuple", "iter") and len(args) == 1 and not kwargs and args[0][0] in ("gen", "tuple", "filter"):
             return args[0]
         if name == "filter" and len(args) == 2 and not kwargs:
@@ -878,6 +1004,20 @@ def _is_ws_split(t):
 
 def _is_split(t):
     return t[0] == "meth" and t[1] in ("split", "rsplit")
+
+
+def _sep_split(t):
+    """t == x.split(s[, k]) / x.rsplit(s[, k]) (k also as `maxsplit=`) with a non-empty constant separator s and, if given, a
+    constant k -> (x, s, k) with k None for "no limit" (absent, None or negative); None for any other term."""
+    if not (_is_split(t) and t[3] and t[3][0][0] == "const" and isinstance(t[3][0][1], (bytes, str)) and t[3][0][1]) or len(t[3]) > 2:
+        return None
+    kw = dict(t[4])
+    if set(kw) - {"maxsplit"} or (len(t[3]) == 2 and kw):
+        return None
+    k = t[3][1] if len(t[3]) == 2 else kw.get("maxsplit", ("const", -1))
+    if not (k[0] == "const" and type(k[1]) is int):
+        return None
+    return t[2], t[3][0], (k[1] if k[1] >= 0 else None)
 
 
 def _understood_test(t):
@@ -1178,7 +1318,8 @@ def run(ctx):
         "also when spelled as find() with a fall-back to the length plus slicing -, "
         "tuple packing, loops/comprehensions/dict() normalised to one mapping form): every constructed message gets the tail after "
         "the first CRLFCRLF of the unmodified argument as body, the start line is the first CRLF-component of the head, its "
-        "whitespace tokens are only unpacked under a dominating length-3 fact and are bound to the like-named fields, "
+        "whitespace tokens are only unpacked under a dominating length-3 fact and are bound to the like-named fields (the request "
+        "target re-coded or passed through an octet filter that keeps every ASCII octet - interval domain - only), "
         "response/request construction is selected by the case-insensitive HTTP/ prefix, the header map is built from the "
         "': '-partition of each remaining head line (skipping at most lines that are no `key: value` line), in the case of an empty "
         "header block (emptiness domain) no entry is stored, the request path is the complete path component of the target "
@@ -1188,7 +1329,7 @@ def run(ctx):
                        "header lines that are not of the `key: value` form (outside the quantifier; R5 lets a filter drop them)",
                        "request targets with a fragment `#` or a leading `//` (not legal in a request path, outside the quantifier): how urlsplit/urlparse or a cut at `?` treat them is not judged",
                        "under the urlparse re-join spelling, a last path segment ending in a bare `;` (empty `.params`): the re-join is accepted as the complete path"]
-    rep.trusted_base = ["CPython ast", "bytes.partition/split/splitlines/find/slicing semantics (incl. b''.split(sep) == [b''])", "urllib.parse (urlsplit keeps `;params` in .path, urlparse moves them to .params; parse_qsl)"]
+    rep.trusted_base = ["CPython ast", "bytes.partition/split/splitlines/find/slicing semantics (incl. b''.split(sep) == [b''], at most maxsplit + 1 pieces)", "iteration over bytes yields its octets and bytes(<ints>) rebuilds them", "urllib.parse (urlsplit keeps `;params` in .path, urlparse moves them to .params; parse_qsl)"]
     f = ctx.repo.func("c2.parse_raw_http")
     cfg = ctx.cfg(f)
     fv = FuncView.of(f.node)
@@ -1383,9 +1524,24 @@ def run(ctx):
 
     def len_range(st, T, at=None):
         lo = hi = None
+        facts = cond_facts(at) if at is not None else facts_at(st)
         if all(a[0] == "meth" and a[1] in ("split", "rsplit") and a[3] and a[3][0] != ("const", None) for a in _alts(T)):
             lo = 1   # lemma: splitting at an explicit separator yields at least one piece (only whitespace split can yield none)
-        for atom, pol in (cond_facts(at) if at is not None else facts_at(st)):
+            seps = [_sep_split(a) for a in _alts(T)]
+            if None not in seps:
+                # lemma: x.split(s, k) / x.rsplit(s, k) with k >= 0 cuts at most k times: at most k + 1 pieces
+                if all(k is not None for _x, _s, k in seps):
+                    hi = max(k for _x, _s, k in seps) + 1
+                # lemma: where the non-empty s occurs in x, a split at s that may cut at least once yields at least two
+                # pieces; where it does not occur, the split is [x]: one piece
+                for atom, pol in facts:
+                    g = _occurrence_test(atom if pol else ("not", atom))
+                    if g is not None and all((x, sp) == g[:2] for x, sp, _k in seps):
+                        if not g[2]:
+                            hi = 1
+                        elif all(k is None or k >= 1 for _x, _s, k in seps):
+                            lo = 2
+        for atom, pol in facts:
             lf = _len_fact(atom, pol)
             if lf is not None and lf[0] == T:
                 if lf[1] is not None:
@@ -1394,9 +1550,9 @@ def run(ctx):
                     hi = lf[2] if hi is None else min(hi, lf[2])
         return lo, hi
 
-    def converts_unpack_error(st):
+    def converts_unpack_error(st, must_raise=True):
         """EAFP form of the length test: the unpacking is directly in the body of a `try` whose handler for ValueError (or a
-        base class of it) ends by raising ValueError."""
+        base class of it) ends by raising ValueError (`must_raise`), resp. exists at all."""
         tr = fv.parent.get(id(st))
         if not isinstance(tr, ast.Try) or not any(b is st for b in tr.body):
             return False
@@ -1404,6 +1560,8 @@ def run(ctx):
             names = [None] if h.type is None else [(dotted(t) or "").split(".")[-1] for t in (h.type.elts if isinstance(h.type, ast.Tuple) else [h.type])]
             if any(n in (None, "ValueError", "Exception", "BaseException") for n in names):
                 last = h.body[-1] if h.body else None
+                if not must_raise and not isinstance(last, ast.Raise):
+                    return True
                 return isinstance(last, ast.Raise) and (last.exc is None or raise_class(last) == "ValueError")
         return False
 
@@ -1418,10 +1576,15 @@ def run(ctx):
             star = any(isinstance(x, ast.Starred) for x in st.targets[0].elts)
             lo, hi = len_range(st, T)
             ok = (lo is not None and lo >= n - 1) if star else (lo == hi == n)
-            eafp = not ok and not star and converts_unpack_error(st)
-            ctx.ob("R2", "DOM", f, f"unpack of the start-line tokens into {n}", ok or eafp,
-                   f"the unpacking of {_show(T)} into {n} names is " + ("inside a try whose ValueError handler raises the parser's ValueError" if eafp else f"dominated by length facts {lo}..{hi}")
-                   + ("" if ok or eafp else ": a start line with another number of parts is not rejected with the parser's ValueError before it"), st)
+            start_line = any(_is_ws_split(a) is not None for a in _alts(T))
+            # the tokens of the start line: a wrong number of them must end in the parser's ValueError; the pieces of any
+            # other split: the failed unpacking must not escape (what the handler computes instead is judged by R1/R5)
+            eafp = not ok and not star and converts_unpack_error(st, must_raise=start_line)
+            ctx.ob("R2", "DOM", f, f"unpack of the start-line tokens into {n}" if start_line else f"unpack of the pieces of a separator split into {n}", ok or eafp,
+                   f"the unpacking of {_show(T)} into {n} names is " + (("inside a try whose ValueError handler raises the parser's ValueError" if start_line else "inside a try that handles the ValueError of a failed unpacking")
+                                                                       if eafp else f"dominated by length facts {lo}..{hi}")
+                   + ("" if ok or eafp else ": a start line with another number of parts is not rejected with the parser's ValueError before it" if start_line else
+                      f": nothing before it establishes that the split has exactly {n} pieces (lemmas: at most maxsplit + 1 pieces; at least two where the separator is known to occur)"), st)
     for n in body_walk(f.node):
         if isinstance(n, ast.Subscript) and isinstance(n.ctx, ast.Load) and not isinstance(n.slice, ast.Slice):
             i = _c(n.slice)
